@@ -46,9 +46,9 @@ pub struct Uco {
     #[brw(pad_after = 2)]
     pub ucoaction: UcoAction,
 
-    /// When this happened
-    #[br(parse_with = binrw_parse_duration::<u32, 1, _>)]
-    #[bw(write_with = binrw_write_duration::<u32, 1, _>)]
+    /// When this happened: time since start, in hundredths of a second on the wire (as in IS_CSC)
+    #[br(parse_with = binrw_parse_duration::<u32, 10, _>)]
+    #[bw(write_with = binrw_write_duration::<u32, 10, _>)]
     pub time: Duration,
 
     /// Was there any car contact?
